@@ -143,6 +143,23 @@ fn sub_cli_files(input: &[u8], st: &mut Stats) -> R {
     }
 }
 
+/// `ext-inst-vocabulary`: OpExtInst with every instruction number around the table boundaries (0, 1,
+/// the last, one past it, 2^16, 2^31 ...) on an import of every extended instruction set name of the
+/// vocabulary (GLSL, OpenCL, the SPV_AMD_* sets, DebugInfo, NonSemantic.*, near misses), parsed,
+/// loaded, assembled and disassembled in-process
+fn sub_ext_vocabulary(input: &[u8], st: &mut Stats) -> R {
+    let k = idx(input) as usize;
+    let sets = crate::vocab::EXT_SETS;
+    let nn = crate::checks::c20::ext_numbers_len();
+    if k >= nn * sets.len() {
+        return Ok(());
+    }
+    let (n, set) = (crate::checks::c20::ext_number_at(k / sets.len()), sets[k % sets.len()]);
+    let w = crate::checks::c20::ext_number_module(set, n);
+    st.nontrivial(k as u64);
+    exercise(&words_to_bytes(&w), st, &|| format!("OpExtInst number {} on an import of {:?}", n, set))
+}
+
 /// header + pseudo-instructions: declared opcodes with arbitrary operand words.
 fn sub_junk(input: &[u8], st: &mut Stats) -> R {
     let mut cs = Cs::new(input);
@@ -229,7 +246,8 @@ fn sub_decoder(input: &[u8], st: &mut Stats) -> R {
     let s = c11::gen_script(&mut cs);
     let ty = c11::typed();
     let dec = || s.render();
-    let mut d = Decoder::new(&s.buf);
+    let shifted = crate::rs::Shifted::new(&s.buf);
+    let mut d = Decoder::new(shifted.bytes());
     let mut limit = false;
     let mut string = false;
     for r in &s.reqs {
@@ -341,8 +359,8 @@ fn sub_reused_loader(input: &[u8], st: &mut Stats) -> R {
     let (b, db) = one(&mut cs);
     let dec = || format!("first parse:\n{}\nsecond parse:\n{}", da, db);
     let mut ld = rspirv::dr::Loader::new();
-    let ra = no_panic("parse_bytes with a Loader", || rspirv::binary::parse_bytes(&a, &mut ld).is_ok()).map_err(|f| f.with_decoded(dec()))?;
-    let rb = no_panic("parse_bytes with the same Loader again", || rspirv::binary::parse_bytes(&b, &mut ld).is_ok()).map_err(|f| f.with_decoded(dec()))?;
+    let ra = no_panic("parse_bytes with a Loader", || rspirv::binary::parse_bytes(crate::rs::Shifted::new(&a).bytes(), &mut ld).is_ok()).map_err(|f| f.with_decoded(dec()))?;
+    let rb = no_panic("parse_bytes with the same Loader again", || rspirv::binary::parse_bytes(crate::rs::Shifted::new(&b).bytes(), &mut ld).is_ok()).map_err(|f| f.with_decoded(dec()))?;
     // by hand: the instructions of the second binary once more
     if let Ok((c, _)) = parse_bytes_collect(&b) {
         no_panic("Loader fed through Consumer methods after earlier parses", || {
@@ -449,6 +467,7 @@ pub const SUBS: &[Sub] = &[
     Sub { name: "reused-loader", f: sub_reused_loader },
     Sub { name: "structural-variations", f: sub_structural },
     Sub { name: "cli-files", f: sub_cli_files },
+    Sub { name: "ext-inst-vocabulary", f: sub_ext_vocabulary },
 ];
 
 pub fn run(ctx: &Ctx) {
@@ -465,6 +484,7 @@ pub fn run(ctx: &Ctx) {
     drive_random(ctx, &SUBS[9], ctx.n(30_000, 10_000_000), 1200);
     drive_random_with(ctx, &SUBS[10], ctx.n(600, 150_000), 1000, 250);
     crate::checks::c20::cleanup();
+    drive_enum(ctx, &SUBS[11], (crate::checks::c20::ext_numbers_len() * crate::vocab::EXT_SETS.len()) as u64);
     if !ctx.quick() && !ctx.failed() {
         crate::fuzzing::drive_fuzz(ctx, "bytes", 1_000_000);
         crate::fuzzing::drive_fuzz(ctx, "modules", 300_000);
